@@ -603,10 +603,12 @@ def _empty_reaches(B, f, node, S, implicit=(), depth=3, chain=()):
     return 'undecided', str(ex_)
   status, wit = 'rejected', ''
   extra = [(rd.expand(node, ie)[0], it) for ie, it in implicit]
+  n_feasible = 0
   for path in paths:
     pf = pathcond.PathFacts(path, rd)
     if not pf.feasible:
       continue
+    n_feasible += 1
     for conj in pf.dnf:
       lits = list(conj)
       for iex, it in extra:
@@ -634,7 +636,9 @@ def _empty_reaches(B, f, node, S, implicit=(), depth=3, chain=()):
       break
   here = '%s%s' % (f.name, (' <- ' + ' <- '.join(chain)) if chain else '')
   if status == 'rejected':
-    return 'safe', ''
+    if not n_feasible:
+      return 'undecided', 'no feasible path to the division was found in %s' % f.name
+    return 'safe', 'every one of the %d feasible paths to it in %s passes a test that excludes an empty %s' % (n_feasible, here, S)
   if status == 'unknown':
     return 'undecided', 'the test `%s` on %s in %s is not understood' % (wit, S, f.name)
   root = S.split('.')[0].split('[')[0]
@@ -646,7 +650,7 @@ def _empty_reaches(B, f, node, S, implicit=(), depth=3, chain=()):
       return 'undecided', 'the non-emptiness of the parameter %s of %s depends on its callers' % (S, f.name)
     idx = f.params.index(S)
     off = 1 if f.kind in ('method', 'getter', 'setter') else 0
-    worst = ('safe', '')
+    worst = ('safe', 'every call site of %s passes a collection that no path leaves empty there' % f.name)
     for gfun, call, n in sites:
       a = call.args[idx - off] if len(call.args) > idx - off >= 0 else au.kwarg(call, S)
       if a is None:
@@ -700,8 +704,6 @@ def _unguarded_division(B, f, ctx, node, sub):
   S = as_len(den_x)
   if S is not None:
     v, why = _empty_reaches(B, f, node, S, implicit)
-    if v == 'safe':
-      return 'undecided', 'no path with an empty %s reaches the division, yet no positive bound was derived' % S
     return v, why
   # a parameter that receives a length at its call sites (n_treatment_geos = len(treatment_group))
   if isinstance(den_x, ast.Name) and den_x.id in f.params and (f.name.startswith('_') and not f.name.startswith('__')):
@@ -724,7 +726,7 @@ def _unguarded_division(B, f, ctx, node, sub):
           return v, why
         if v == 'undecided':
           worst = (v, why)
-      return worst or ('undecided', 'every call site passes the length of a collection that is not empty there, yet no positive bound was derived')
+      return worst or ('safe', 'every call site of %s passes the length of a collection that no path leaves empty there' % f.name)
   names += ['len(%s)' % c for c in colls if 'len(%s)' % c not in names] + [c for c in colls if c not in names]
   # plain quantities
   base_texts = set(names)
@@ -783,7 +785,11 @@ def r1_division(rep, closure, T, K, B):
             if positive(b):
               rep.ok('R1c/division', '%s: denominator > 0 (%s)' % (norm(sub)[:50], b), loc=f.loc(sub))
             else:
-              rep.undecided('R1c/division', norm(sub)[:80], 'operand kinds unknown (%s/%s) and denominator not provably non-zero' % (kl, kr), f.loc(sub))
+              v_, why_ = _unguarded_division(B, f, ctx, node, sub)
+              if v_ == 'safe':
+                rep.ok('R1c/division', '%s: %s' % (norm(sub)[:50], why_), loc=f.loc(sub))
+              else:
+                rep.undecided('R1c/division', norm(sub)[:80], 'operand kinds unknown (%s/%s) and denominator not provably non-zero' % (kl, kr), f.loc(sub))
             continue
           n_py += 1
           ne = nonempty_facts(f, node)
@@ -792,7 +798,9 @@ def r1_division(rep, closure, T, K, B):
             rep.ok('R1c/division', '%s: Python-number division, denominator provably > 0 (%s)' % (norm(sub)[:50], b), loc=f.loc(sub))
             continue
           verdict, why = _unguarded_division(B, f, ctx, node, sub)
-          if verdict == 'violation':
+          if verdict == 'safe':
+            rep.ok('R1c/division', '%s: Python-number division, %s' % (norm(sub)[:50], why), loc=f.loc(sub))
+          elif verdict == 'violation':
             rep.violation('R1c/division', f.qualname, norm(sub)[:120],
                           'Python-number division %s: the denominator %s can be zero (lower bound %s; %s) — ZeroDivisionError escapes the search'
                           % (norm(sub)[:80], norm(sub.right)[:50], b, why), f.loc(sub))
